@@ -274,6 +274,11 @@ def fold_name(name: str, mod: Mod, prog: Optional[Program] = None, depth=0):
         if m2 is not None and orig is not None:
             if orig in m2.assigns or orig in m2.imports:
                 return fold_name(orig, m2, prog, depth + 1)
+        # constants of the standard library taken by name: `from string import ascii_letters, digits`, `from re import VERBOSE`
+        if src == "string" and orig in _STRING_CONSTS:
+            return _STRING_CONSTS[orig]
+        if src == "re" and orig in _RE_FLAGS:
+            return _RE_FLAGS[orig]
     raise Unknown(f"name {name} in {mod.rel}")
 
 
